@@ -3,7 +3,7 @@ contract stanzas in contracts/*.vspec; E2 contracts by the `props` list of each 
 
 TRUSTED_BASE = [
     "Verus 0.2026.09.13 + Z3 (E1), Kani 0.68 + CBMC 6.11 (E3), rustc",
-    "specs/prelude.rs: assumed contracts (assume_specification / axioms / uninterpreted token content) for quote::ToTokens, syn tokens, Ident::new, LitBool::new, Lifetime::new, Punctuated (first/len/is_empty/iter/pairs), Bracket/Paren/Brace::surround, syn::Error::new, Box::as_ref, slice/Punctuated length bounds",
+    "specs/prelude.rs: assumed contracts (assume_specification / axioms / uninterpreted token content) for quote::ToTokens, syn tokens, Ident::new, Ident == Ident / Ident == \"text\" (compare by text), LitBool::new, Lifetime::new, Punctuated (first/len/is_empty/iter/pairs), Bracket/Paren/Brace::surround, syn::Error::new, Box::as_ref, slice/Punctuated length bounds",
     "normalisations N1..N7 of DESIGN.md section 2.1 (listed per run under coverage.normalisations); N2 relies on Rust's scope-end drop",
     "the splicer tools/assemble (erasure-checked: removing every insertion gives back the normalised repository text)",
 ]
@@ -27,7 +27,7 @@ def prop(level="proof", kani=None, e2=True, e1=True, explanation="", assumptions
 PROPS = {
     "C01": prop(explanation="E1: receiver token, .await iff async, SelfArgComma; E2: delegating-item contract (own ident, args in order) over enumerated signatures"),
     "C05": prop(explanation="E1: nested attribute tokens, concrete branches of SelfTy / impl params / where clause; E2: concrete type shapes, diagnostics for mod / impl"),
-    "C13": prop(explanation="E1: TraitVisibility emitter; E2: requested visibility on trait and re-export, delegation-target trait visibility"),
+    "C13": prop(explanation="E1: TraitVisibility emitter, is_relative_path; E2: requested visibility on trait and re-export, delegation-target trait visibility"),
     "C18": prop(explanation="E1: SubAttribute re-emission; E2: attribute placement on fn / trait / impl / parameters / mirrored method attributes"),
     "C02": prop(explanation="E1: verbatim re-emission by the input.rs ToTokens impls (added as proved); E2: expansion starts with / contains the original item tokens, over enumerated module and impl bodies", e1_required=False),
     "C03": prop(explanation="only the second sentence (same call type) is decided; 'compiles' is a fact about rustc. E1: ArgumentsGenerator, trait where clause, TraitGenerics; E2: signature conversion and generics lifting over enumerated generic lists"),
@@ -35,7 +35,7 @@ PROPS = {
     "C04": prop(explanation="E1: impl generics, where clause over all declared bounds of all trait fns, Impl path, self type, mockable(); E2: bound collection and impl assembly"),
     "C06": prop(explanation="E2: forwarding call per delegation kind, provider bound on T, fixed Sync + 'static header (E1 contracts on ImplWhereClause / DelegatingMethod are added as they are proved)", e1_required=False),
     "C07": prop(explanation="E1: ArgumentsGenerator (EntraitT first), SelfTy / where clause for impl blocks; E2: target trait generation, selector trait, inversion call, impl-block expansion", e1_required=True),
-    "C08": prop(explanation="E1: TraitVisibility (pub(super) rule), filter_pub_fn; E2: classification of module items over the item alphabet", e1_required=True),
+    "C08": prop(explanation="E1: TraitVisibility (absent -> pub(super), relative paths re-based one level up), is_relative_path, filter_pub_fn; E2: classification of module items over the item alphabet", e1_required=True),
     "C09": prop(explanation="E1: Supertraits emitter, trait where clause; E2: structural comparison of input trait and emitted trait", e1_required=True),
     "C10": prop(kani=["set_fallbacks_1", "set_fallbacks_2", "modifier_entrait", "modifier_entrait_export", "modifier_entrait_unimock", "modifier_entrait_export_unimock"], explanation="E1: option kernel, cfg_attr(test, ..) gating, emptiness of the unimock params; E3: set_fallbacks; E2: attribute selection over the full option lattice"),
     "C11": prop(explanation="E1: exact unimock attribute parameters incl. unmock_with entries"),
